@@ -52,6 +52,9 @@ def is_rgb_ints(v):
 class EnvWatch:
     """fd-level capture of stdout/stderr + before/after listing of the working directory."""
 
+    root = None       # when set: the whole scratch area is listed (paths relative to the CURRENT working directory), so a file
+                      # written outside the working directory - e.g. into the directory an object was constructed in - is seen
+
     def __init__(self, enabled):
         self.enabled = enabled
 
@@ -69,7 +72,7 @@ class EnvWatch:
 
     def _listing(self):
         out = {}
-        for root, dirs, files in os.walk("."):
+        for root, dirs, files in os.walk(EnvWatch.root or "."):
             for f in files:
                 p = os.path.join(root, f)
                 try:
@@ -235,8 +238,10 @@ def run_ops(ops, observe_env=False, tag=""):
             out.append(ev)
         elif kind == "bulk":
             _, entries, mode, vr, save = op
-            ents = [tuple(D(x) for x in e) for e in entries]
-            ents_before = repr([tuple(dec(x) for x in e) for e in entries])
+            # an entry is given either as a plain JSON list of encoded components (-> tuple entry) or as one encoded value
+            # {"t": [...]} / {"l": [...]} (-> tuple / LIST entry: the entry's own container type is part of the input)
+            ents = [D(e) if isinstance(e, dict) else tuple(D(x) for x in e) for e in entries]
+            ents_before = repr([dec(e) if isinstance(e, dict) else tuple(dec(x) for x in e) for e in entries])
             ev = {"op": "bulk", "mode": mode, "vr": bool(vr), "save": bool(save), "raised": "", "entries": [], "results": [],
                   "dout": 0, "newFiles": [], "modFiles": []}
             for e in ents:
@@ -267,6 +272,16 @@ def run_ops(ops, observe_env=False, tag=""):
             except Exception as ex:
                 ev["raised"] = type(ex).__name__
             out.append(ev)
+        elif kind == "chdir":
+            # the process moves to a sibling scratch directory (objects constructed before keep living)
+            tgt = os.path.join(EnvWatch.root or ".", op[1])
+            os.makedirs(tgt, exist_ok=True)
+            os.chdir(tgt)
+        elif kind == "rlimit":
+            # lower the soft limit on open files: a history of many calls must not exhaust descriptors
+            import resource
+            soft, hard = resource.getrlimit(resource.RLIMIT_NOFILE)
+            resource.setrlimit(resource.RLIMIT_NOFILE, (min(int(op[1]), hard if hard > 0 else int(op[1])), hard))
         elif kind == "cli":
             _, css_text, argv = op
             ev = {"op": "other", "dout": 0, "newFiles": [], "what": "cli"}
@@ -396,7 +411,9 @@ if __name__ == "__main__" and len(sys.argv) > 1 and sys.argv[1] == "threads":
 if __name__ == "__main__":
     ops = json.loads(sys.stdin.read())
     d = tempfile.mkdtemp(prefix="verif_fresh_")
-    os.chdir(d)
+    EnvWatch.root = d
+    os.makedirs(os.path.join(d, "a"))
+    os.chdir(os.path.join(d, "a"))
     try:
         res = run_ops(ops, observe_env=(sys.argv[1] == "1"))
     finally:
